@@ -1512,6 +1512,27 @@ def outer_rules(ctx, crate, b, conv, label):
         ctx.add(['C08', 'C09'], 'O5', b.span(), 'the slice the conversion loop works on is not the whole buffer of the wrapped input vector (%s)' % (callee_path(root[1]) if root[0] == 'call' else root[0]), key='slice-origin')
     else:
         ctx.inst('O5', 'the loop works on the whole buffer of the wrapped input [%s]' % label)
+    # the vector itself is only taken apart and put back together: an operation that may move, shrink, grow
+    # or rebuild the allocation ("shrink_to_fit when few survive", a re-collect) gives up "same allocation
+    # and capacity"; one that changes the contents or the length other than set_len gives up the regions
+    VEC_OK = ('set_len', 'from_raw_parts', 'from_raw_parts_in', 'into_raw_parts', 'into_raw_parts_with_alloc', 'as_mut_ptr', 'as_ptr',
+              'capacity', 'len', 'is_empty', 'as_mut_slice', 'as_slice', 'allocator')
+    VEC_TRAITS_OK = ('core::ops::deref::Deref', 'core::ops::deref::DerefMut', 'core::ops::drop::Drop', 'core::convert::AsMut', 'core::convert::AsRef',
+                     'core::ops::index::Index', 'core::ops::index::IndexMut', 'core::borrow::Borrow', 'core::borrow::BorrowMut')
+    n_vec = 0
+    for bb_, t_ in calls:
+        cp_ = callee_path(t_) or ''
+        m_ = re.match(r'^alloc::vec::Vec::<[^>]*>::([a-z_0-9]+)$', cp_)
+        m2_ = re.match(r'^<alloc::vec::Vec<.*> as ([A-Za-z_:0-9]+)(<.*>)?>::([a-z_0-9]+)$', cp_)
+        if m_:
+            n_vec += 1
+            if m_.group(1) not in VEC_OK:
+                ctx.add(['C08'], 'O5', fmt_span(t_['span']), '`Vec::%s` is applied to a vector inside the conversion: the result must be the input allocation with its capacity and exactly the produced elements, which only set_len / raw parts / borrows preserve' % m_.group(1), key='vec-op|%s' % m_.group(1))
+        elif m2_:
+            n_vec += 1
+            if m2_.group(1) not in VEC_TRAITS_OK:
+                ctx.add(['C08'], 'O5', fmt_span(t_['span']), '`<Vec as %s>::%s` is applied to a vector inside the conversion: the result must be the input allocation with its capacity and exactly the produced elements' % (m2_.group(1).split('::')[-1], m2_.group(3)), key='vec-op|%s' % m2_.group(3))
+    ctx.inst('O5', 'no Vec operation other than set_len / raw parts / borrows in the outer function (%d Vec calls) [%s]' % (n_vec, label))
     info['t_cu'] = t_cu
     info['bb_cu'] = bb_cu
     # cleanup closure = the other closure
@@ -2461,6 +2482,8 @@ def guard_rule(ctx, crate, b, label):
                 delegates += 1
             elif 'ManuallyDrop' in p or 'set_len' in p or p.startswith('core::ptr::') or 'transmute' in p or 'as_mut_slice' in p:
                 bad.append(p)
+            elif re.match(r'^alloc::vec::Vec::<[^>]*>::[a-z_0-9]+$', p) or re.match(r'^<alloc::vec::Vec<.*> as (?!core::ops::drop::Drop)[A-Za-z_:0-9]+(<.*>)?>::[a-z_0-9]+$', p):
+                bad.append(p)      # the wrapper hands the vectors on as they are
         for i, j, s in w.statements():
             if s['k'] == 'assign' and s['rv']['k'] == 'cast' and s['rv']['ck'] == 'Transmute':
                 bad.append('transmute')
